@@ -74,6 +74,13 @@ static std::string show_v(T v)
 {
   if constexpr (std::is_same_v<T, float>) { uint32_t b; std::memcpy(&b, &v, 4); return std::to_string(b); }
   else if constexpr (std::is_same_v<T, double>) { uint64_t b; std::memcpy(&b, &v, 8); return std::to_string(b); }
+  else if constexpr (std::is_same_v<T, long double>) {
+    // the 10 value bytes as a decimal number
+    unsigned __int128 b = 0; std::memcpy(&b, &v, 10);
+    if (b == 0) return "0";
+    std::string s; while (b != 0) { s.insert(s.begin(), char('0' + int(b % 10))); b /= 10; }
+    return s;
+  }
   else if constexpr (std::is_enum_v<T>) return std::to_string(static_cast<unsigned long long>(v));
   else if constexpr (std::is_pointer_v<T>) return std::to_string(reinterpret_cast<uintptr_t>(v));
   else return show_int(v);
@@ -83,6 +90,10 @@ static T parse_v(const std::string& s)
 {
   if constexpr (std::is_same_v<T, float>) { uint32_t b = uint32_t(parse_u64(s)); float f; std::memcpy(&f, &b, 4); return f; }
   else if constexpr (std::is_same_v<T, double>) { uint64_t b = parse_u64(s); double f; std::memcpy(&f, &b, 8); return f; }
+  else if constexpr (std::is_same_v<T, long double>) {
+    unsigned __int128 b = 0; for (char ch : s) b = b * 10 + unsigned(ch - '0');
+    long double f = 0; std::memcpy(&f, &b, 10); return f;
+  }
   else if constexpr (std::is_enum_v<T>) return static_cast<T>(parse_u64(s));
   else return parse_int<T>(s);
 }
@@ -94,6 +105,7 @@ static bool with_any_kind(const std::string& k, F&& f)
   if (k == "enum") { f(tag<En>{}); return true; }
   if (k == "float") { f(tag<float>{}); return true; }
   if (k == "double") { f(tag<double>{}); return true; }
+  if (k == "ldouble") { f(tag<long double>{}); return true; }
   return false;
 }
 
